@@ -330,6 +330,13 @@ def _scalar(fd: Any, v: Any) -> Any:
 # ----------------------------------------------------------------------------------------
 
 
+class _DeadDecoder:
+    buf = b""
+
+    def feed(self, data: bytes) -> list:
+        return []
+
+
 class SimDevice:
     """Scripted ESPHome device.
 
@@ -411,7 +418,19 @@ class SimDevice:
         except wire.WireError as exc:
             w.rec("dev_wire_error", conn=conn.cid, err=str(exc))
             st["wire_error"] = str(exc)
-            if self.cfg.get("on_wire_error", "close") == "close":
+            mode = self.cfg.get("on_wire_error", "close")
+            st["dec"] = _DeadDecoder()
+            if mode == "close":
+                conn.device_close("fin")
+            elif mode == "rst":
+                conn.device_close("rst")
+            elif mode == "reply_plain":
+                # a plaintext device answering garbage with a plaintext frame, then closing
+                self._emit_raw(conn, wire.plain_frame(2, b""), {"name": "#plain_reply", "kind": "garbage"})
+                conn.device_close("fin")
+            elif mode == "reply_noise_error":
+                # a noise device answering a plaintext client with its error frame, then closing
+                self._emit_raw(conn, wire.noise_outer(b"\x01Bad indicator byte"), {"name": "#requires_encryption", "kind": "garbage"})
                 conn.device_close("fin")
 
     def _on_noise_frame(self, conn: SimConn, fr: bytes) -> None:
